@@ -30,6 +30,12 @@ def _watchdog(pid, tier):
                 child.kill()
         except Exception:       # noqa
             pass
+        try:
+            import shutil
+            if os.environ.get('TMPDIR', '').startswith('/tmp/verif_'):
+                shutil.rmtree(os.environ['TMPDIR'], ignore_errors=True)
+        except Exception:       # noqa
+            pass
         os._exit(2)
     signal.signal(signal.SIGALRM, fire)
     signal.alarm(limit)
@@ -58,6 +64,15 @@ def main():
         except FileNotFoundError:     # another run of the same check removed it first
             pass
     _watchdog(pid, args.tier)
+    # every scratch directory of this run (this process, pool workers, forked command-line runs) is created under one root,
+    # which is removed when the run ends: pool workers leave through os._exit and never run their own clean-up
+    import tempfile
+    import shutil
+    import atexit
+    run_root = tempfile.mkdtemp(prefix='verif_%s_' % pid.lower())
+    os.environ['TMPDIR'] = run_root
+    tempfile.tempdir = run_root
+    atexit.register(shutil.rmtree, run_root, True)
     level = getattr(mod, 'LEVEL', 'model_checking')
     ev = common.Evidence(pid, args.tier, seed, level)
     vd = common.Verdicts(pid, ev, getattr(mod, 'SIGNATURES', None))
